@@ -17,6 +17,12 @@ import z3
 Fraction = fractions.Fraction
 
 import os as _os
+import sys as _sys
+
+_sys.set_int_max_str_digits(0)  # model values can be rationals with thousands of digits
+
+# z3's Python pretty-printer is exponential on large shared terms: bound it (affects only diagnostics)
+z3.set_option(max_depth=6, max_args=8, max_lines=8, max_width=120, max_visited=300)
 
 FORK_SITES = {} if _os.environ.get("SYMX_TRACE_FORKS") else None
 BRANCH_TIMEOUT_MS = 2000
